@@ -15,6 +15,7 @@ use lock_api::{Mutex, RawMutex};
 
 /// Tracks how the future had interacted with the timer
 #[derive(PartialEq)]
+#[cfg_attr(futures_intrusive_verif, derive(Debug))]
 enum PollState {
     /// The task is not registered at the wait queue at the timer
     Unregistered,
@@ -27,6 +28,7 @@ enum PollState {
 }
 
 /// Tracks the timer futures waiting state.
+#[cfg_attr(futures_intrusive_verif, derive(Debug))]
 struct TimerQueueEntry {
     /// Timestamp when the timer expires
     expiry: u64,
@@ -74,6 +76,7 @@ impl Ord for TimerQueueEntry {
 }
 
 /// Internal state of the timer
+#[cfg_attr(futures_intrusive_verif, derive(Debug))]
 struct TimerState {
     /// The clock which is utilized
     clock: &'static dyn Clock,
@@ -483,6 +486,12 @@ mod verif_hooks {
             snap_heap(&state.waiters, &mut snap, &describe);
             snap
         }
+
+        /// `Debug` rendering of the complete internal state (all fields,
+        /// including ones this hook does not know about)
+        pub fn verif_debug(&self) -> alloc::string::String {
+            alloc::format!("{:?}", *self.inner.lock())
+        }
     }
 
     impl<'a> LocalTimerFuture<'a> {
@@ -490,12 +499,22 @@ mod verif_hooks {
         pub fn verif_node(&self) -> NodeSnap {
             snap_heap_node(&self.wait_node, 0, &describe)
         }
+
+        /// `Debug` rendering of the wait node of this future
+        pub fn verif_node_debug(&self) -> alloc::string::String {
+            alloc::format!("{:?}", self.wait_node)
+        }
     }
 
     impl<'a> TimerFuture<'a> {
         /// Describes the wait node of this future
         pub fn verif_node(&self) -> NodeSnap {
             self.timer_future.verif_node()
+        }
+
+        /// `Debug` rendering of the wait node of this future
+        pub fn verif_node_debug(&self) -> alloc::string::String {
+            self.timer_future.verif_node_debug()
         }
     }
 }
